@@ -25,7 +25,7 @@ pub static DEF: CheckDef = CheckDef {
     id: "C12",
     level: "exploration",
     technique: "deterministic component simulation of the counter store: seeded submitter tasks on a simulated clock against a per-peer last-accepted model (linearised at invocation), twin stores for peer independence, crash images of the non-atomic persistence write; real-thread interleavings of the lock section explored separately under shuttle",
-    runs: (1500, 60000),
+    runs: (3000, 100000),
     generate,
     execute,
     shrink,
